@@ -1,6 +1,7 @@
 # C18 Netcode liveness — only the clauses that are visible in the shape of the code
 import re
 from sa.rules import *
+import rules.shared as shared
 from rules.netcode_common import *
 import rules.C07 as C07
 
@@ -62,5 +63,15 @@ def rules(t):
         r.site(s)
         if "AddWithOverflow 1" not in fmt(t.stored(s)): r.bad("failover-index", s, "failover does not advance to the next server address")
     if not idx: r.bad("failover-missing", None, "no failover to the next server address")
+    # restarting the attempt restarts the timeout clock and targets the newly selected address
+    restarts = [x for x in t.stores(NC, "state", c) if "SendingConnectionRequest" in fmt(t.stored(x))]
+    for x in restarts:
+        r.site(x, "restart")
+        need = {"last_packet_received_time": lambda v: fmt(strip(v)).endswith(".current_time"), "server_addr": lambda v: "server_addresses" in fmt(v) and "server_addr_index" in fmt(v)}
+        for fld, okv in need.items():
+            got = [y for y in t.stores(NC, fld, c) if okv(t.stored(y)) and idx and c.dominates(idx[0].bb, y.bb) and (c.dominates(y.bb, x.bb) or must_pass(c, pos(x), {pos(y)})[0])]
+            if not got: r.bad(f"failover-restart|{fld}", x, f"the attempt restarts for the next server address but {fld} is not reset on that path" + (": the timeout clock keeps running from the silent address, so the next address gets no time to answer" if fld == "last_packet_received_time" else ""))
+    if not restarts: r.bad("failover-restart-missing", None, "failover does not restart the connection request")
     out.append(r)
+    out.append(shared.slots_match_limit(t, "C18.e"))
     return out
